@@ -15,7 +15,7 @@ HOSTS = ["cli0.example.net", "cli1.example.net", "cli2.example.net"]
 
 def base_cfg(variant=0):
     c = NS.default_cfg()
-    c.update(cea=3, cer=3, dwa=3, idle=5, wakeup=1, rsize=2)
+    c.update(cea=3, cer=3, dwa=3, idle=5, wakeup=1, rsize=2, variant=variant)
     c["apps"] = [dict(id=4, auth=True, acct=False)]
     c["peers"] = [dict(name=HOSTS[0], realm="example.net", addr=False, persistent=False, always=False,
                        cea=None, cer=None, dwa=None, idle=None, rwait=30, apps=[0], default=False),
@@ -32,6 +32,10 @@ def base_cfg(variant=0):
         c["peers"][1]["apps"] = [1]
         c["peers"].append(dict(name=HOSTS[2], realm="example.net", addr=False, persistent=False, always=False,
                                cea=None, cer=None, dwa=None, idle=None, rwait=30, apps=[], default=False))
+    if variant == 3:      # one application whose peers live in different realms
+        c["peers"][0]["realm"] = "other.example.org"      # cli0 (the focus connection's peer)
+        c["peers"][1]["realm"] = "example.net"
+        c["peers"][1].update(persistent=False, addr=False)
     return c
 
 
@@ -84,7 +88,7 @@ class Ctx:
         return (c[4] or c[3]) if c and (c[4] or c[3]) else HOSTS[0]
 
     def recv(self, cid, spec):
-        if not self.alive(cid):
+        if not self.alive(cid) or (getattr(self, "pending_frag", None) and self.pending_frag[0] == cid):
             return None
         if "hbh" not in spec:
             h, e = self.ids()
@@ -127,6 +131,8 @@ def act(cx, tok):
         spec = dict(kind="cea", host=name, result=2001, auth=auth, acct=acct)
         if kind == "3010":
             spec["result"] = 3010
+        elif kind == "2002":
+            spec["result"] = 2002       # a success-class code that is not 2001
         elif kind == "nohost":
             spec["host"] = None
         elif kind == "foreign":
@@ -151,6 +157,36 @@ def act(cx, tok):
         elif tok == "req_raise":
             spec["raises"] = True
         return cx.recv(f, spec) is not None
+    if tok in ("ra", "rb"):      # a request from origin host A (the peer) / B (another host behind it), answered by the application
+        spec = dict(kind="req", host=cx.host_of(f) if tok == "ra" else "behind-relay.example.net", app=app_ids[0] if app_ids else 4)
+        if cx.recv(f, spec) is None:
+            return False
+        if cx.delivered:
+            app, h, e, w, _cid = cx.delivered.pop(0)
+            if tok == "ra":
+                cx.answered.append(w)
+            cx.do(dict(ev="app_answer", app=app, msg=cx.g.make_answer(w)))
+        return True
+    if tok == "req_other":       # Destination-Realm of the other configured realm
+        return cx.recv(f, dict(kind="req", host=cx.host_of(f), app=app_ids[0] if app_ids else 4, drealm="other.example.org")) is not None
+    if tok in ("frag", "frag_rest"):
+        # a read that carries only part of a frame (traffic, but no message yet) / the rest of it
+        if not cx.alive(f):
+            return False
+        if tok == "frag":
+            if getattr(cx, "pending_frag", None):
+                return False
+            h, e = cx.ids()
+            fr = NS.build_message(dict(kind="dwr", host=cx.host_of(f), hbh=h, e2e=e))
+            cx.pending_frag = (f, fr)
+            cx.do(dict(ev="recv", cid=f, frames=[], raw=fr[:11]))
+            return True
+        if not getattr(cx, "pending_frag", None) or cx.pending_frag[0] != f:
+            return False
+        _f, fr = cx.pending_frag
+        cx.pending_frag = None
+        cx.do(dict(ev="recv", cid=f, frames=[fr], raw=fr[11:]))
+        return True
     if tok == "retx":          # T-flagged repeat of the last answered request, new hop-by-hop id
         if not cx.answered or not cx.alive(f):
             return False
@@ -193,8 +229,8 @@ def act(cx, tok):
         o = cx.do(dict(ev="stop", force=tok == "stopf", timeout=20))
         cx.stop_immediate = tok == "stopf" or not o["snap"]["conns"]
         return True
-    if tok == "appreq":
-        if cx.stopped:
+    if tok in ("appreq", "appreq1"):
+        if cx.stopped or (tok == "appreq1" and len(cx.cfg["apps"]) < 2):
             return False
         from diameter.message.commands import CreditControlRequest
         m = CreditControlRequest()
@@ -205,7 +241,7 @@ def act(cx, tok):
         m.service_context_id = "ctx"
         m.cc_request_type = 1
         m.cc_request_number = 0
-        cx.do(dict(ev="app_request", app=0, msg=m, pick=0, timeout=30))
+        cx.do(dict(ev="app_request", app=1 if tok == "appreq1" else 0, msg=m, pick=0, timeout=30))
         return True
     if tok == "ansreq":
         if not cx.outstanding:
@@ -218,7 +254,9 @@ def act(cx, tok):
     if tok in ("accept", "accept_bg") and (not cx.r.sim.listeners or getattr(cx.r.sim.listeners[0], "closed", False)):
         return False
     if tok == "accept":
-        cx.do(dict(ev="accept", hbh0=5000 + 17 * len(cx.r.remotes)))
+        # variant 0: the connection's hop-by-hop generator is about to wrap (0xffffffff is followed by 1, never by 0)
+        h0 = 0xfffffffe if cx.cfg.get("variant") == 0 else 5000 + 17 * len(cx.r.remotes)
+        cx.do(dict(ev="accept", hbh0=h0))
         cx.focus = len(cx.r.remotes) - 1
         return True
     if tok == "accept_bg":       # a further connection that does not take the focus
@@ -240,8 +278,8 @@ THEMES = {
                      ["cer_known", "cer_unknown", "cer_nocommon", "cer_relay", "cer_swapped", "cea_ok", "dwr", "dpr", "req", "ans",
                       "tdwa", "close", "accept_bg", "swap"]),
     "handshake_out": ((0, 1, 2), [],
-                      ["cea_ok", "cea_3010", "cea_nohost", "cea_foreign", "cer_known1", "cer_known", "dwr", "dwa", "dpr", "req",
-                       "tdwa", "t1", "close"]),
+                      ["cea_ok", "cea_2002", "cea_3010", "cea_nohost", "cea_foreign", "cer_known1", "cer_known", "dwr", "dwa", "dpr", "req",
+                       "tdwa", "t1", "close", "appreq"]),
     "ready": ((0, 1, 2), ["accept", "cer_known"],
               ["dwr", "dwr0", "dwa", "dpr", "dpa", "req", "req0", "req_raise", "req_bad", "req_app", "req_realm", "req_unk", "retx", "ans",
                "ans_again", "t1", "tbig", "tdwa", "stall", "unstall", "stop", "stopf", "close", "appreq", "ansreq", "cea_ok",
@@ -267,6 +305,16 @@ PHASED = {
                 [("any", ["req", "req0", "req_raise", "ans", "ans_again", "close", "dpr", "accept_bg", "swap", "cer_known", "retx"], 3)]),
     "retransmit": ((0, 2), ["accept", "cer_known"],
                    [("any", ["req", "ans", "retx", "req_unk", "t1"], 5)]),
+    # a request of origin A answered, then up to 3 answered requests of A / B (window size 2: eviction), then the T-flagged repeat
+    "retransmit_two_origins": ((0,), ["accept", "cer_known"],
+                               [("fixed", ["ra"]), ("any", ["ra", "rb", "t1"], 3), ("fixed", ["retx"]), ("any", ["retx", "rb"], 1)]),
+    "two_peers": ((2, 0), ["accept", "cer_known", "accept_bg", "bg_cer"],
+                  [("any", ["tbig", "tdwa", "t1", "dwa", "close", "swap", "dpr", "req", "ans", "appreq", "appreq1", "ansreq", "stall",
+                            "unstall"], 3)]),
+    "realms": ((3,), ["accept", "cer_known", "accept_bg", "bg_cer"],
+               [("any", ["req", "req_other", "swap", "ans", "appreq", "req_app"], 3)]),
+    "fragments": ((0, 1), ["accept", "cer_known"],
+                  [("any", ["frag", "frag_rest", "t1", "tdwa", "tbig", "dwr"], 4)]),
 }
 
 
@@ -290,7 +338,11 @@ def enumerate_phased(theme, limit=None, seed=0):
         return
     seqs = list(phased_sequences(theme))
     if limit is not None and len(seqs) > limit:
-        seqs = random.Random(seed).sample(seqs, limit)
+        seqs.sort(key=len)
+        shortest = len(seqs[0])
+        keep = [q for q in seqs if len(q) <= shortest + 2][:limit]
+        rest = [q for q in seqs if len(q) > shortest + 2]
+        seqs = keep + random.Random(seed).sample(rest, max(0, min(len(rest), limit - len(keep))))
     seen = set()
     for k, seq in enumerate(seqs):
         for v in (variants if len(seq) <= 2 else (variants[k % len(variants)],)):
